@@ -5,7 +5,7 @@
 From Coq Require Import List Arith Bool.
 Import ListNotations.
 From C17 Require Import Sem Progs Static Annot FutRaw.
-From C17 Require Exec ExecLive Ss FutCopy0 Per Owner Sd WitnessR8 Conserve Pool ConserveAll PoolD PoolFin PoolRe.
+From C17 Require Exec ExecLive Ss FutCopy0 Per Owner Sd WitnessR8 Conserve Pool ConserveAll PoolD PoolFin PoolRe PoolN PoolReD PoolReFin WaitQ WaitQAll.
 From Coq Require Import Permutation.
 
 (* Data-race freedom of the model: whenever a thread is about to execute an instruction that reads
@@ -333,14 +333,65 @@ Print Assumptions c17_pool_invariant.
    ThreadPool::Execute on the same pool when a worker runs them -- possibly after JoinAll() has set m_shutdown: Execute
    queues and signals regardless of m_shutdown), every schedule, any n and r: lock discipline, and conservation:
    closures handed in (by the owner or by a running closure) are exactly those run, in a worker's hand, or still
-   queued; in particular none is dropped.  PARTIAL: that the queue is empty when JoinAll() returns is NOT proved for
-   this scenario (c17_pool_drained covers init_pool only); it is checked per enumerated schedule (the driver reports
-   end=undrained) and shown for the owner-first schedule, where the follow-up is handed in after shutdown began
-   (ex_poolre_late_followup). *)
+   queued; in particular none is dropped.  (The drained clause is c17_poolre_drained below; ex_poolre_late_followup shows
+   the owner-first schedule, where the follow-up is handed in after shutdown began.) *)
 Theorem c17_poolre_conserved : forall n r s, reach P (init_poolre n r) s ->
   Inv P An s /\ Permutation (subm s) (map fst (ran s) ++ Conserve.curs s ++ que s PQ).
 Proof. exact PoolRe.poolre_conserved. Qed.
 Print Assumptions c17_poolre_conserved.
+
+(* ---- ThreadPool (init_pool n), the number of closures: from the moment JoinAll() is entered (owner pc >= 22) exactly n
+   closures have been handed to Execute; when JoinAll() has returned exactly n closures have run, each of the n once. *)
+Theorem c17_pool_submitted : forall n s, reach P (init_pool n) s -> (22 <=? pc (thr s 0)) = true -> length (subm s) = n.
+Proof. exact PoolN.pool_submitted. Qed.
+Print Assumptions c17_pool_submitted.
+
+Theorem c17_pool_drained_count : forall n s, reach P (init_pool n) s -> stat (thr s 0) = Done ->
+  length (subm s) = n /\ length (ran s) = n /\ que s PQ = [] /\
+  Permutation (subm s) (map fst (ran s)) /\ NoDup (map fst (ran s)).
+Proof. exact PoolN.pool_drained_count. Qed.
+Print Assumptions c17_pool_drained_count.
+
+(* ---- ThreadPool with two-stage jobs (init_poolre n r), the drained clause, every schedule, any n and r: once both joins
+   of JoinAll() have returned (in particular once the owner has finished) both workers have finished, the queue is empty,
+   m_shutdown is set, nothing is in a worker's hand, and the closures run are exactly -- as a multiset -- the closures
+   handed in by the owner or by a running closure, including follow-ups handed in after m_shutdown was set.  A single
+   finished worker does not imply an empty queue here; the invariant is "both workers past the shutdown test => queue
+   empty" (c17_poolre_invariant).  Uniqueness of the closure ids is not proved for this scenario, so "exactly once" is
+   equality of multisets. *)
+Theorem c17_poolre_joined : forall n r s, reach P (init_poolre n r) s -> (41 <=? pc (thr s 0)) = true ->
+  stat (thr s 1) = Done /\ stat (thr s 2) = Done /\ que s PQ = [] /\ var s PSHUT = 1 /\ Conserve.curs s = [] /\
+  Permutation (subm s) (map fst (ran s)).
+Proof. exact PoolReFin.poolre_joined. Qed.
+Print Assumptions c17_poolre_joined.
+
+Theorem c17_poolre_drained : forall n r s, reach P (init_poolre n r) s -> stat (thr s 0) = Done ->
+  stat (thr s 1) = Done /\ stat (thr s 2) = Done /\ que s PQ = [] /\ var s PSHUT = 1 /\ Conserve.curs s = [] /\
+  Permutation (subm s) (map fst (ran s)).
+Proof. exact PoolReFin.poolre_drained. Qed.
+Print Assumptions c17_poolre_drained.
+
+Theorem c17_poolre_invariant : forall n r s, reach P (init_poolre n r) s -> PoolReD.PLR s /\ PoolReD.XJ s.
+Proof. exact PoolReFin.poolre_xj. Qed.
+Print Assumptions c17_poolre_invariant.
+
+(* ---- The wait queues are exact, for EVERY scenario and every schedule (and, in WaitQ.WQI_step, for every program): a
+   thread is asleep on condition c iff it is in c's wait queue, and no wait queue holds a thread twice.  So a Signal on
+   a condition with a sleeper always finds a non-empty queue and wakes a thread that really sleeps on that condition
+   (ground work for the wake-up invariants; the ThreadPool wake-up invariant itself is not proved yet). *)
+Theorem c17_waitq_exact : forall s0 s, initial s0 -> reach P s0 s ->
+  (forall u c, (exists m, stat (thr s u) = Asleep c m) <-> In u (wq s c)) /\ (forall c, NoDup (wq s c)).
+Proof. exact WaitQAll.waitq_exact. Qed.
+Print Assumptions c17_waitq_exact.
+
+Theorem c17_waitq_step : forall Pg s l s', WaitQ.WQI s -> exec Pg s l = Some s' -> WaitQ.WQI s'.
+Proof. exact WaitQ.WQI_step. Qed.
+Print Assumptions c17_waitq_step.
+
+Theorem c17_sleeper_in_queue : forall s0 s u c m, initial s0 -> reach P s0 s ->
+  stat (thr s u) = Asleep c m -> wq s c <> [].
+Proof. exact WaitQAll.sleeper_in_queue. Qed.
+Print Assumptions c17_sleeper_in_queue.
 
 (* ---- ExecutorThread where callbacks call Execute again from inside the callback (scenario init_execre), every
    schedule, any number of producers / callbacks / re-submissions: callbacks are conserved (none duplicated, none
